@@ -40,8 +40,10 @@ static const char *PRE =
   "f: func i64, p:a\n  local i64:r\n  mov r, i64:(a)\n  jmpi r\nL1:\n  ret 1\nL2:\n  ret 2\n  ret 3\nendfunc\n"
   "ex_i8: func i8\n  ret -5\nendfunc\nex_i16: func i16\n  ret -300\nendfunc\nex_i32: func i32\n  ret 70000\nendfunc\nex_i64: func i64\n  ret -1099511627776\nendfunc\n"
   "ex_f: func f\n  ret 2.5f\nendfunc\nex_d: func d\n  ret -0.75\nendfunc\nex_ld: func ld\n  ret 6.25L\nendfunc\nex_p: func p\n  ret 4096\nendfunc\n"
+  /* a function without jmpi whose label M1 is referenced only from data (see POST): the generator must keep the label */
+  "f2: func i64, i64:a\n  local i64:r\n  mov r, 5\n  bt M1, a\n  jmp M2\nM1:\n  jmp M2\nM2:\n  ret r\nendfunc\n"
   "s0: i64 1229782938247303441\n";
-static const char *POST = "s1: i64 2459565876494606882\nlater: i64 77\nla0: i64 5\n  lref L1\n  lref L2\nendmodule\n"; /* the reference label slots sit behind a non-lref section head on purpose */
+static const char *POST = "s1: i64 2459565876494606882\nlater: i64 77\nla0: i64 5\n  lref L1\n  lref L2\nlb0: i64 1\n  lref M1\nendmodule\n"; /* the reference label slots sit behind a non-lref section head on purpose */
 
 static uint64_t nsym2;
 void drv_init (int thorough) { build_syms (); max_len = thorough ? 3 : 3; nsym2 = 2ull * n_sy; (void) thorough; }
